@@ -1,29 +1,27 @@
 CFG = {
-    "modules": ["Parsley.Props.C14"],
+    "modules": ["Parsley.Props.C14", "Parsley.Props.C14Spelled"],
     "theorems": [
         "Parsley.C14.objstm_roundtrip", "Parsley.C14.objstm_accepted_wellformed", "Parsley.C14.objstm_never_panics",
         "Parsley.C14.objstm_rejects_order", "Parsley.C14.objstm_rejects_short", "Parsley.C14.first_beyond_rejected",
         "Parsley.C14.overrun_rejected", "Parsley.C14.defined_rejected", "Parsley.C14.repeated_rejected",
         "Parsley.C14.offset_beyond_rejected", "Parsley.C14.defect17_witness",
         "Parsley.ObjStm.readAt_eq_parseObj", "Parsley.ObjStm.metaLoop_good", "Parsley.ObjStm.streamLoop_good", "Parsley.ObjStm.streamLoop_complete",
+        # C14b: composition with C02's spell_parse (every value, every legal spelling) and headers with comments
+        "Parsley.C14.objstm_spelled_roundtrip", "Parsley.C14.extracts_spelled", "Parsley.C14.objstm_roundtrip_c",
+        "Parsley.C14.objstm_roundtrip_of_header", "Parsley.C14.header_accepts_comments",
+        "Parsley.C14.metaLoop_accept_c", "Parsley.C14.metaLoop_short_c", "Parsley.C14.metaLoop_order_c",
+        "Parsley.C14.header_order_rejected_c", "Parsley.C14.header_short_rejected_c",
+        "Parsley.C14.objstm_rejects_order_c", "Parsley.C14.objstm_rejects_short_c",
+        "Parsley.C14.layoutsC_of_layoutsOK", "Parsley.C14.pairsOf_inc", "Parsley.C14.exMs_ok",
     ],
     "partial": {
-        "(value at the declared offset)": "objstm_roundtrip is at full strength for the object-stream layer: 'the object located at offset o' is "
-            "what the object parser (optional white space/comments, then parse_pdf_obj; model of C02/C16) reads at o - proved equal to parse_pdf_obj "
-            "applied directly at o (readAt_eq_parseObj) - with NO assumption on the bytes "
-            "between the end of one object and the next declared offset. That this reader returns the value that was spelled there is C02's "
-            "statement (spell_parse, still partial); here it is decided by the oracle on generated streams (the oracle knows the spelled values).",
-        "(header layouts)": "the header theorems quantify over all white-space layouts (any run of the six PDF white-space bytes); headers "
-            "containing comments are decided by the oracle on generated streams (the theorems about the CONTENT make no assumption on the gaps, "
-            "so comments in gaps - terminated or not before the next offset - are inside objstm_roundtrip; the generator and the exhaustive "
-            "{1,blank,%,LF} space exercise them)",
         "(filters)": "the filter decoders are a parameter of the model (C06 owns them): the theorems hold for every decoder function; "
             "the real FlateDecode path is exercised by the harness on generated zlib streams",
     },
     "n": {"quick": 4000, "thorough": 250000},
     "exhaustive": {"quick": False, "thorough": True},
     "shrink": False,
-    "rule": "corpus (defect #17 input, the unit-test fixtures, one case per rejection rule, huge numbers) + exhaustive small space: every content over "
+    "rule": "corpus (defect #17 input, the unit-test fixtures, one case per rejection rule, huge numbers, comments.case: the concrete instance of objstm_spelled_roundtrip and headers with comments in every run, accepted and rejected) + exhaustive small space: every content over "
             "{1,2,blank,x} and every content over {1,blank,%,LF} containing % or LF (comments with and without a terminating LF before an offset), of length <= 4 (thorough: <= 5), x every offset pair (o0,o1) in [0,len+1]^2 under a 2-pair header (quick: every 3rd), judged "
             "by a small digit reader that looks only at the bytes from the declared offset on + random streams: 1..6 members with values from the C02 generator spelled by the C02 encoder, ids incl. "
             "2^32 and 2^63-1, three gap styles (contiguous as the unit tests / white space / arbitrary non-object bytes incl. unbalanced delimiters, "
@@ -58,5 +56,11 @@ LEVEL = {
             "content, no object past the next offset, fresh distinct ids, /First inside the data), hence the five rejections of the statement; and "
             "that no panic site is reachable for any /N, /First or offset (set_cursor address arithmetic modelled on usize). The model is tied to the "
             "real parser by a correspondence run on generated, corrupted and exhaustively enumerated small streams (members, spans, context lookups); "
-            "defect #17 (object read after the previous one instead of at its offset) is reproduced on the unfixed tree and repaired by C14-01.",
+            "defect #17 (object read after the previous one instead of at its offset) is reproduced on the unfixed tree and repaired by C14-01. "
+            "Composed with C02's spell_parse (objstm_spelled_roundtrip, Props/C14Spelled.lean): for a stream described purely by its bytes - a header of N "
+            "'id offset' pairs in any layout of white space AND comments, anything up to /First, and at each declared offset an optional white-space/"
+            "comment run and ANY legal spelling (C02.Spells) of ANY value the depth budget has room for, in a context legal after it (C02.Follows), with "
+            "arbitrary gap bytes in between - the parser returns (id_k, 0, value_k) in header order and the context binds exactly (id_k, 0) -> value_k; "
+            "the header acceptance and the two header rejections are proved for layouts with comments too (the real parse_metadata skips comments: "
+            "checked through the harness, corpus/C14/comments.case).",
 }
